@@ -99,11 +99,30 @@ Example C04_nonvacuous :
   normalize_s p256_n p256_half_n (p256_n - 1) = Some 1.
 Proof. split; [eexists; split; [vm_compute; reflexivity|]|]; repeat split; vm_compute; reflexivity. Qed.
 
-(* SignWith compares the key's curve with the request, not with the signer certificate: given a P256 key
-   together with a Curve25519 signer it issues a P256 certificate naming that signer, which no pool accepts
-   (curve mismatch). The API leaves "the key belongs to the signer" to its caller (nebula-cert checks it with
-   VerifyPrivateKey); that is the hypothesis kc = c_curve ca of C04_sign_implies_verify. *)
-Example C04_foreign_key_witness :
-  exists c, sign_with (Some ex_signer) 1 (ex_tbs 1) [108; 50] [108; 51] = SOk c /\ c_curve c <> c_curve ex_signer /\
-            verify [(c_fp ex_signer, ex_signer)] [] 2500%Z c true = Err ECurveMismatch.
-Proof. eexists. split; [vm_compute; reflexivity|]. split; [vm_compute; discriminate|vm_compute; reflexivity]. Qed.
+(* KNOWN FINDING F23 (KNOWN_FINDINGS.json, signature "signer-curve-mismatch"): SignWith compares the key's curve
+   with the request, not with the signer certificate. Given a P256 key together with a Curve25519 signer (and
+   symmetrically) it issues a certificate naming that signer which the signer's own pool refuses, at every
+   instant and whatever the signature verdict: the property's "satisfies the signing CA's curve constraint" and
+   "every issued certificate verifies against a pool containing its signer" fail on exactly the region
+   kc <> c_curve ca, which the hypothesis of C04_sign_implies_verify excludes. (nebula-cert is not affected: it
+   checks the key against the CA certificate with VerifyPrivateKey first.) *)
+Definition ex_signer_p256 : cert :=
+  mkCert 2 1 [99; 98] [] [] [] true 1000%Z 9000%Z [] [4; 5; 6] [102; 50] [].
+
+Theorem C04_signer_curve_refuted :
+  (exists ca kc t fp fp2 c,
+     sign_with (Some ca) kc t fp fp2 = SOk c /\ kc <> c_curve ca /\ c_curve c <> c_curve ca /\
+     forall now sig, verify_g [(c_fp ca, ca)] [] now c sig = Err ECurveMismatch) /\
+  (exists ca kc t fp fp2 c,
+     c_curve ca = 1 /\ sign_with (Some ca) kc t fp fp2 = SOk c /\ kc <> c_curve ca /\
+     forall now sig, verify_g [(c_fp ca, ca)] [] now c sig = Err ECurveMismatch).
+Proof.
+  split.
+  - exists ex_signer, 1, (ex_tbs 1), [108; 50], [108; 51]. eexists.
+    split; [vm_compute; reflexivity|]. split; [vm_compute; discriminate|]. split; [vm_compute; discriminate|].
+    intros now sig. vm_compute. reflexivity.
+  - exists ex_signer_p256, 0, (ex_tbs 0), [108; 52], []. eexists.
+    split; [reflexivity|]. split; [vm_compute; reflexivity|]. split; [vm_compute; discriminate|].
+    intros now sig. vm_compute. reflexivity.
+Qed.
+Print Assumptions C04_signer_curve_refuted.
